@@ -162,9 +162,15 @@ func c08(args []string) error {
 					rect := o.Rect()
 					rec["obs"] = fmt.Sprint(rect, o.Empty(), o.Valid(), o.NumPoints())
 					rec["ans"] = predicateAnswers(o, probes)
+					if nullOrdinate(r.ast) { // a null ordinate is read as NaN: outside "numbers finite"; predicates on NaN are not compared
+						rec["ans"] = "not compared: the document has a null ordinate"
+					}
 					_, isCircle := o.(*geojson.Circle)
 					rec["circle"] = isCircle
 					rec["valid"] = o.Valid()
+					if c, ok := o.(*geojson.Circle); ok { // RequireValid speaks about the nine standard types: a Circle feature is its Point
+						rec["valid"] = c.Center().Valid()
+					}
 				}
 				recs = append(recs, rec)
 			}
@@ -176,4 +182,38 @@ func c08(args []string) error {
 	}
 	printJSON(obj{"docs": len(rows), "parses": parses, "events": ev.N, "accepted_by_default_options": acceptedDocs, "option_sets": len(runs)})
 	return nil
+}
+
+// nullOrdinate: does a "coordinates" member of the document (at any depth) contain a null?
+func nullOrdinate(a AST) bool {
+	var hasNull func(AST) bool
+	hasNull = func(v AST) bool {
+		if v.Tag == "z" {
+			return true
+		}
+		for _, it := range v.Items {
+			if hasNull(it) {
+				return true
+			}
+		}
+		return false
+	}
+	if a.Tag == "o" {
+		for i, it := range a.Items {
+			if a.Keys[i] == "coordinates" && hasNull(it) {
+				return true
+			}
+			if nullOrdinate(it) {
+				return true
+			}
+		}
+	}
+	if a.Tag == "a" {
+		for _, it := range a.Items {
+			if nullOrdinate(it) {
+				return true
+			}
+		}
+	}
+	return false
 }
